@@ -34,7 +34,7 @@ func init() {
 			{ID: "C09-R4", Title: "untransformed pass-through between JSON and the characteristic API; member names", Decides: "what is set is what is read and vice versa", Floor: 8, Run: c09r4},
 			{ID: "C09-R5", Title: "contiguous chunking; bodies go through the chunked writer", Decides: "fidelity after HTTP chunking and encryption for responses of any size", Floor: 4, Run: c09r5},
 			{ID: "C09-R7", Title: "polarity of the handler's decisions (id parsing, found/missing, 207/204, subscribe/unsubscribe, chunk clamp)", Decides: "each id is answered with its own value or status; correct status codes", Floor: 10, Run: c09r7},
-			{ID: "C09-R6", Title: "handlers encode live state; request bodies reach the decoder unbounded", Decides: "what the application sets is what /accessories shows; large written values arrive", Floor: 3, Run: c09r6},
+			{ID: "C09-R6", Title: "handlers encode live state; request bodies reach the decoder unbounded", Decides: "what the application sets is what /accessories shows; large written values arrive", Floor: 4, Run: func(c *core.Ctx) { c09r6(c); frameAtATime(c) }},
 		},
 	})
 }
@@ -327,6 +327,22 @@ func c09r2(c *core.Ctx) {
 	if f == nil {
 		c.Undecided("Characteristics", token.NoPos, "not found")
 		return
+	}
+	// the value of an answer comes from a characteristic that can be read: for one without read permission the getter answers nil,
+	// the nil value is left out of the JSON ("omitempty") and the id is answered with neither a value nor a status
+	ng := 0
+	for _, s := range core.FindCalls(f, func(i ssa.Instruction) bool { return core.IsCall(i, "(*"+tChar+").GetValueFromConnection") }) {
+		ng++
+		ch := core.Receiver(s)
+		readable := core.TrueFact(func(v ssa.Value) bool {
+			call, ok := v.(*ssa.Call)
+			return ok && core.IsCall(call, "(*"+tChar+").IsReadable") && sameValue(core.Receiver(call), ch)
+		})
+		c.Check(core.Dominated(s, readable), "read-needs-read-permission@"+fname(f), posOf(s), "the getter is asked on the IsReadable() branch of the characteristic",
+			"a read of a characteristic without read permission (Identify and the other write-only ones) is answered from the getter: the value is nil, the JSON encoder leaves it out, and the requested id is answered with neither a value nor an error status")
+	}
+	if ng == 0 {
+		c.Undecided("read-needs-read-permission@"+fname(f), f.Pos(), "no read of a characteristic value in the handler")
 	}
 	gl := findGetLoop(f)
 	if gl == nil {
